@@ -3,7 +3,7 @@ import os
 import random
 
 from chx.ob import BOOL, CP, PR, R, U, ob
-from harness.skeletons import SKELETONS, indented
+from harness.skeletons import EXTRA_SKELETONS, SKELETONS, indented
 
 FUNCS = [
     "cdd.shared.docstring_utils.parse_docstring_into_header_args_footer",
@@ -76,7 +76,7 @@ def _pert(doc, pos, mode):
 
 
 _ALL = []
-for _style, _doc in SKELETONS.items():
+for _style, _doc in list(SKELETONS.items()) + list(EXTRA_SKELETONS.items()):
     for _ind in (0, 2, 4, 8):
         _d = indented(_doc, _ind)
         for _pos in range(len(_d) + 1):
@@ -132,3 +132,43 @@ for _k, _tier, _T in ((1, "quick", 120), (2, "thorough", 900)):
        funcs=["cdd.shared.docstring_utils.header_args_footer_to_str", "cdd.shared.pure_utils.num_of_nls",
               "cdd.shared.pure_utils.count_chars_from"],
        bound="header, section, footer each of exactly %d arbitrary code points" % _k)(_k1(_k))
+
+
+# --- P3: no prose line is absorbed into a parameter's or the return's type or default ------------------------------------------
+def _absorb(doc, pos):
+    def body(c):
+        import cdd.docstring.utils.parse_utils as pu
+        from cdd.shared.docstring_parsers import parse_docstring
+        from chx.shim import shim
+        from harness.shims import ADHOC_SHIMS
+
+        d = doc[:pos] + chr(c) + doc[pos:]
+        with shim(pu, **ADHOC_SHIMS):
+            try:
+                ir = parse_docstring(d)
+            except Exception:
+                return ""
+        entries = list(ir["params"].items()) + (list(ir["returns"].items()) if ir.get("returns") else [])
+        for name, e in entries:
+            for key in ("typ", "default"):
+                v = e.get(key)
+                if isinstance(v, str) and ("Footerprose" in v or "Header line" in v or "More header" in v):
+                    return "prose absorbed into the %s of %s: %r" % (key, name, v)
+        return ""
+
+    return body
+
+
+_P3 = []
+for _name, _doc in list(EXTRA_SKELETONS.items()) + [("rest", SKELETONS["rest"])]:
+    for _ind in (0, 4):
+        _d = indented(_doc, _ind)
+        for _pos in range(len(_d) + 1):
+            _P3.append((_name, _ind, _pos, _d))
+_P3Q = set(random.Random(SEED + 1).sample(range(len(_P3)), 20))
+for _i, (_name, _ind, _pos, _d) in enumerate(_P3):
+    _q = _i in _P3Q or _pos == len(_d) or _pos == 0
+    ob("C15", "P3.absorb.%s.i%d.ins%03d" % (_name, _ind, _pos), {"c": CP}, tier="quick" if _q else "thorough", T=150,
+       funcs=["cdd.shared.docstring_parsers.parse_docstring", "cdd.shared.docstring_parsers._parse_phase_rest", "cdd.shared.docstring_parsers._set_param_values",
+              "cdd.shared.docstring_parsers._fill_doc_with_afterward"],
+       bound="%s docstring with footer (indent %d) and ANY code point inserted at offset %d: no header/footer prose inside any typ/default" % (_name, _ind, _pos))(_absorb(_d, _pos))
